@@ -29,6 +29,13 @@ import (
 // ---------------------------------------------------------------------------------------------
 
 func specReads(base core.StateReader, entries []*pending.PreConfirmed) string {
+	return specReadsBefore(base, entries, -1)
+}
+
+// specReadsBefore: as specReads, but of the LAST entry only the first k per-transaction diffs are
+// applied (k < 0: all) — the state immediately before transaction k of that block. The class
+// definitions of the last block are all visible (PreConfirmedStateBeforeIndexAt registers them all).
+func specReadsBefore(base core.StateReader, entries []*pending.PreConfirmed, k int) string {
 	type acct struct {
 		deployed bool
 		class    string
@@ -56,8 +63,11 @@ func specReads(base core.StateReader, entries []*pending.PreConfirmed) string {
 		_, ok := accts[x]
 		return x, ok && f.Cmp(fe(x)) == 0
 	}
-	for _, e := range entries {
-		for _, d := range e.TransactionStateDiffs {
+	for ei, e := range entries {
+		for ti, d := range e.TransactionStateDiffs {
+			if k >= 0 && ei == len(entries)-1 && ti >= k {
+				break
+			}
 			for a, c := range d.DeployedContracts {
 				if x, ok := uni(&a); ok {
 					accts[x].deployed, accts[x].class, accts[x].nonce, accts[x].fresh = true, fv(c), "0", true
@@ -188,6 +198,19 @@ func viewStateOracle(bc *blockchain.Blockchain, v *preconfirmed.ChainReader, hei
 		if got := reads(full); got != want {
 			return "before-last-index-" + firstDiffSection(want, got) + "-differs-from-applied-diffs",
 				fmt.Sprintf("view for head %d, state before index %d of block %d:\n view: %s\n spec: %s", height, len(e.Block.Transactions), b, got, want), n
+		}
+		// every inner index: the state before transaction k is the older blocks plus the first k
+		// transactions of this one
+		for k := 0; k < len(e.Block.Transactions); k++ {
+			wantK := specReadsBefore(base, entriesUpTo(v, b), k)
+			part, _, err := v.PreConfirmedStateBeforeIndexAt(b, uint(k), bc)
+			if err != nil {
+				return "before-index-unavailable", fmt.Sprintf("PreConfirmedStateBeforeIndexAt(%d, %d): %v", b, k, err), n
+			}
+			if got := reads(part); got != wantK {
+				return "before-index-" + firstDiffSection(wantK, got) + "-differs-from-applied-diffs",
+					fmt.Sprintf("view for head %d, state before index %d (of %d) of block %d:\n view: %s\n spec: %s", height, k, len(e.Block.Transactions), b, got, wantK), n
+			}
 		}
 		n++
 	}
